@@ -36,7 +36,7 @@ func TestMain(m *testing.M) {
 }
 
 var names = []string{"a", "b", "req.time", "c.d", "e", "f_g"}
-var tagSets = [][]string{nil, {"k:v"}, {"env:prod", "k:w"}}
+var tagSets = [][]string{nil, {"k:v"}, {"env:prod", "k:w"}, {"gsd_histogram:1_5_10", "k:v"}, {"gsd_histogram:20"}}
 var sources = []string{"1.2.3.4", "10.0.0.9"}
 var rates = []string{"1", "0.5", "0.25", "0.1", "0.3"}
 var typeStr = map[gostatsd.MetricType]string{gostatsd.COUNTER: "c", gostatsd.TIMER: "ms", gostatsd.GAUGE: "g", gostatsd.SET: "s"}
